@@ -32,6 +32,10 @@ def has_quantifier(fs):
 
 def prove(assumptions, goal, use_theory=True, timeout_ms=None, extra_axioms=(), axioms_only=None):
   """conjunctive goals are split into one query per conjunct (smaller, more stable queries)"""
+  if z3.is_true(goal):
+    r = Result('discharged', 'trivial', 0.0)
+    r.axioms, r._solver = [], None
+    return r
   if z3.is_and(goal) and len(goal.children()) > 1:
     total = 0.0
     axs = set()
